@@ -23,9 +23,8 @@ emu_ev(struct emu_ev *ev, const struct ovni_ev *oev,
 		ev->has_payload = 1;
 		ev->payload = &oev->payload;
 
-		if (oev->header.flags & OVNI_EV_JUMBO) {
-			ev->is_jumbo = 1;
-		}
+		/* Don't keep the value of the previous event */
+		ev->is_jumbo = (oev->header.flags & OVNI_EV_JUMBO) ? 1 : 0;
 	} else {
 		ev->has_payload = 0;
 		ev->payload = NULL;
